@@ -122,26 +122,26 @@ Definition class_desc (le : bool) (k : oclass) : fdesc :=
   end.
 
 (* ------------------------------------------------------------------ LEB128 numbers with their encoding *)
-Record leb : Type := mkleb { lv : Z; lenc : list Z }.
+Record lebn : Type := mklebn { lv : Z; lenc : list Z }.
 
 Definition uleb_ok (v : Z) (enc : list Z) : bool :=
   all_bytes enc && match uleb_spec enc with Some (v', []) => v' =? v | _ => false end.
 Definition sleb_ok (v : Z) (enc : list Z) : bool :=
   all_bytes enc && match sleb_spec enc with Some (v', []) => v' =? v | _ => false end.
-Definition uleb_wf (l : leb) : bool := uleb_ok (lv l) (lenc l).
-Definition sleb_wf (l : leb) : bool := sleb_ok (lv l) (lenc l).
+Definition uleb_wf (l : lebn) : bool := uleb_ok (lv l) (lenc l).
+Definition sleb_wf (l : lebn) : bool := sleb_ok (lv l) (lenc l).
 
 (* ------------------------------------------------------------------ attribute operands *)
 Inductive operand : Type :=
 | OpU (v : Z)                                   (* CFixed *)
-| OpLeb (l : leb)                               (* CUleb, CSleb *)
+| OpLeb (l : lebn)                               (* CUleb, CSleb *)
 | OpStr (s : list Z)                            (* CStr *)
 | OpBlockN (payload : list Z)                   (* CBlockN *)
 | OpBlockU (lenenc : list Z) (payload : list Z) (* CBlockU: the length's encoding is free *)
 | OpBytes (b : list Z)                          (* CBytes *)
 | OpNone                                        (* CNone *)
 | OpImplicit                                    (* CImplicit *)
-| OpIndirect (f : leb) (inner : operand).       (* CIndirect: actual form, operand in that form *)
+| OpIndirect (f : lebn) (inner : operand).       (* CIndirect: actual form, operand in that form *)
 
 Fixpoint encode_operand (c : cfg) (k : oclass) (op : operand) : list Z :=
   match k, op with
@@ -202,9 +202,9 @@ Fixpoint raw_of (op : operand) : rawval :=
   end.
 
 (* ------------------------------------------------------------------ abbreviation tables (§7.5.3) *)
-Record aspec : Type := mkaspec { a_name : leb; a_form : leb; a_const : option leb }.
+Record aspec : Type := mkaspec { a_name : lebn; a_form : lebn; a_const : option lebn }.
 Record adecl : Type := mkadecl {
-  d_code : leb; d_tag : leb; d_kids : bool; d_attrs : list aspec;
+  d_code : lebn; d_tag : lebn; d_kids : bool; d_attrs : list aspec;
   d_end_name : list Z; d_end_form : list Z      (* encodings of the closing (0, 0) pair *)
 }.
 Record atable : Type := mkatable { t_decls : list adecl; t_end : list Z (* encoding of the closing 0 code *) }.
@@ -247,12 +247,12 @@ Fixpoint find_decl (ds : list adecl) (code : Z) : option adecl :=
 
 (* ------------------------------------------------------------------ entries and trees (§2.3, §7.5.2) *)
 Inductive die : Type :=
-| Node (code : leb) (vals : list operand) (kids : list die) (term : list Z).
+| Node (code : lebn) (vals : list operand) (kids : list die) (term : list Z).
    (* term: encoding of the null entry that closes the sibling list of the children;
       present in the bytes iff the abbreviation says DW_CHILDREN_yes *)
 
 Inductive fentry : Type :=
-| FEntry (code : leb) (vals : list operand)
+| FEntry (code : lebn) (vals : list operand)
 | FNull (enc : list Z).
 
 Definition has_kids (ds : list adecl) (code : Z) : bool :=
